@@ -23,7 +23,7 @@ for f in sorted(glob.glob(res_dir + "/*.json")):
     old = json.load(open(d + "meta.json")) if os.path.exists(d + "meta.json") else {}
     meta = {
         "id": mid, "property": r["property"], "summary": src.get("summary"), "needs": src.get("needs"),
-        "demo_cmd": r["demo_cmd"], "origin": "independent sub-agent (round 2) given only the property text, the two round-1 changes to avoid, and a scratch worktree",
+        "demo_cmd": r["demo_cmd"], "origin": "independent sub-agent (round %s) given only the property text, summaries of the changes collected before (to avoid), and a scratch worktree" % rnd.lstrip("r"),
         "adapted": None,
         "confirmed": {"repo_head": head, "applies": True, "suite_passed": int(r["suite_passed"]), "suite_failed": 0,
                       "demo_fails_with_patch": True, "demo_passes_without_patch": True,
